@@ -84,13 +84,33 @@ def dimsF? (j : Json) : Option (Dims Float) :=
         | _ => none)).map Dims.table
     | _, _ => none
 
+/-- a raw table: rows of bit patterns -/
+def rawF? (j : Json) : Option (List (List Float)) :=
+  match j with
+  | Json.arr rows => rows.toList.mapM floats?
+  | _ => none
+
+/-- the `tomo_dimensions` argument of a flip on the wire: `raw` (the table as the caller gave it; the MODEL does the
+shape dispatch with `loadDims`) or, for cases stored before, the pre-digested `dims` -/
+def flipDims? (j : Json) : Option (Dims Float) :=
+  match fld? j "raw" with
+  | some Json.null => some Dims.none
+  | some r => rawF? r >>= loadDims
+  | none => fld? j "dims" >>= dimsF?
+
+def dimsJ : Dims Float → Json
+  | .none => Json.mkObj [("kind", "none")]
+  | .single z => Json.mkObj [("kind", "single"), ("z", (bitsOfFloat z : Json))]
+  | .table rows => Json.mkObj [("kind", "table"), ("rows", Json.arr (rows.map (fun (t, z) => bitsJ' [t, z])).toArray)]
+where bitsJ' (xs : List Float) : Json := Json.arr (xs.map (fun x => (bitsOfFloat x : Json))).toArray
+
 def opF? (j : Json) : Option (Op Float) :=
   match getStr? j "kind" with
   | some "update" => some Op.update
   | some "scale" => (getNat? j "f").map (fun n => Op.scale (floatOfBits n))
   | some "shift" => (fld? j "v" >>= floats? >>= v3Of).map Op.shift
   | some "rotate" => (fld? j "q" >>= floats? >>= m3Of).map Op.rotate
-  | some "flip" => (fld? j "dims" >>= dimsF?).map Op.flip
+  | some "flip" => (flipDims? j).map Op.flip
   | _ => none
 
 def mapOp {α β : Type} (g : α → β) : Op α → Op β
@@ -168,6 +188,14 @@ def handle (j : Json) : Json :=
       let bj := fun (l : List Bool) => Json.arr (l.map (fun (b : Bool) => Json.bool b)).toArray
       Json.mkObj [("ok", bj res), ("okpos", bj pos), ("covered", bj cov)]
     | _, _, _ => err "bad-args"
+  | some "loaddims" =>
+    -- the shape dispatch of `dimensions_load` alone: refused (`ValueError`) or the dimensions `flip_handedness` will use
+    match fld? j "raw" >>= rawF? with
+    | some raw =>
+      match loadDims raw with
+      | some d => Json.mkObj [("ok", Json.bool true), ("dims", dimsJ d)]
+      | none => Json.mkObj [("ok", Json.bool false)]
+    | none => err "bad-args"
   | some "round" =>
     match fld? j "xs" >>= floats? with
     | some xs => Json.mkObj [("r", Json.arr (xs.map (fun x => (Json.num (JsonNumber.fromInt (svcF.rnd x))))).toArray)]
